@@ -42,7 +42,7 @@ TSet == /\ IsEvent("set")
         /\ UNCHANGED <<body, sent, ended, cgrant, csent, lastN>> /\ Unused
 
 TOpen == /\ IsEvent("open")
-         /\ Ev.s \notin DOMAIN body
+         /\ Ev.s \notin DOMAIN body                       \* (stream ids are never reused on a connection)
          /\ body' = (Ev.s :> Ev.body) @@ body /\ sent' = (Ev.s :> 0) @@ sent
          /\ ended' = (Ev.s :> FALSE) @@ ended /\ sgrant' = (Ev.s :> iws) @@ sgrant
          /\ UNCHANGED <<iws, cgrant, csent, lastN, tmfs>> /\ Unused
@@ -86,10 +86,14 @@ TSync == /\ IsEvent("sync")
          /\ Expect(QuietP(body, sent, sgrant, cgrant, csent), "stalled-with-open-window")
          /\ UNCHANGED <<body, sent, ended, iws, sgrant, cgrant, csent, lastN, tmfs>> /\ Unused
 
+(* end of a case; the streams that have ended leave the books (the connection lives on for thousands of cases) *)
+Restrict(f, S) == [x \in S |-> f[x]]
 TQuiesce == /\ IsEvent("quiesce")
             /\ Expect(\A s \in DOMAIN body : sent[s] = body[s], "body-incomplete")
             /\ Expect(\A s \in DOMAIN body : ended[s], "stream-not-ended")
-            /\ UNCHANGED <<body, sent, ended, iws, sgrant, cgrant, csent, lastN, tmfs>> /\ Unused
+            /\ body' = Restrict(body, Live) /\ sent' = Restrict(sent, Live)
+            /\ ended' = Restrict(ended, Live) /\ sgrant' = Restrict(sgrant, Live)
+            /\ UNCHANGED <<iws, cgrant, csent, lastN, tmfs>> /\ Unused
 
 TErr == /\ IsEvent("err")
         /\ Expect(FALSE, "peer-saw-error")
